@@ -271,6 +271,28 @@ def run(spec, tier, seed, replay_path=None):
             ctx["concrete"] += fails
     ctx["ex"] = ex
 
+    # ---- pinned synchronisation skeleton (step-level models only, see checklib/skeletons.py)
+    try:
+        from . import skeletons
+        sk = skeletons.SKELETONS.get(pid)
+    except Exception:
+        sk = None
+    if sk:
+        funcs = (facts or {}).get("funcs", {})
+        bad = []
+        for fn, want in sk.items():
+            f = funcs.get(fn)
+            if f is None:
+                bad.append("%s is missing" % fn)
+                continue
+            got = {"chan_ops": sum(1 for x in f.get("sig", []) if x in ("u<-", "<-")), "go": f.get("gos", 0),
+                   "calls": [c for c in f.get("calls", []) if c not in skeletons.IGNORED]}
+            if got != want:
+                bad.append("%s: now %s, the model transcribes %s" % (fn, got, want))
+        cov["sync_skeleton_ok"] = not bad
+        if bad:
+            ctx["broken"].append({"layer": "L2", "what": "synchronisation skeleton of the anchored code changed: " + "; ".join(bad)[:1500]})
+
     # ---- property-specific extra phases
     spec.extra(ctx)
 
